@@ -126,6 +126,37 @@ theorem view_len_exact (v : View ν α) (h : v.WF) (hn : v.leafIds.Nodup)
         .ok (remaining (prod (lens v.shape)) k) :=
   shapeIter_len (lens v.shape) (Nat.le_trans (view_elements_le_storage v h hn) hfit) k
 
+/-- **The four getters** (`probe m=checked|checked_mut|unchecked|unchecked_mut`; the model has one
+    function for the two checked getters, `View.get`, and one for the two unchecked ones,
+    `View.getUnchecked`).  On every index inside the reported shape they all resolve to the cell
+    the iterators use (`TSource.ofView v`), without any panic; on an index of the right arity
+    outside the shape the checked getters answer `None` — never a panic, never a cell. -/
+theorem view_probe_spec (v : View ν α) (h : v.WF) (idx : List Nat) :
+    (inBounds (lens v.shape) idx = true →
+      ∃ c, (TSource.ofView v).cell idx = some c ∧ v.getUnchecked idx = .ok c ∧
+        v.get idx = .ok (some c)) ∧
+    (inBounds (lens v.shape) idx = false → idx.length = v.shape.length →
+      (∀ i ∈ idx, i ≤ usizeMax) → v.get idx = .ok none) := by
+  constructor
+  · intro hin
+    obtain ⟨c, hu, hg⟩ := C02.view_unchecked_eq_checked v h idx hin
+    exact ⟨c, by simp [TSource.ofView, hu], hu, hg⟩
+  · intro hout hl hb
+    obtain ⟨r, hr, hiff⟩ := C02.view_get_some_iff_inBounds v h idx hl hb
+    rw [hr]
+    cases r with
+    | none => rfl
+    | some c =>
+      have := hiff.mp (by simp)
+      rw [hout] at this
+      cases this
+
+/-- non-vacuity of `v.WF ∧ v.leafIds.Nodup`: a 2-element tensor leaf -/
+example : ∃ v : View String Nat, v.WF ∧ v.leafIds.Nodup :=
+  ⟨View.tensor 0 ⟨[0, 1], [("a", 2)], [1]⟩,
+    (C02.constructors_establish_wf (ν := String) (α := Nat)).1 0 [("a", 2)] [0, 1] _ rfl
+      (by decide), by decide⟩
+
 /-- non-vacuity: a range over a reversed 2×3 tensor is a well-formed view with one leaf, and
     iterating it visits offsets 2, 1, 5, 4 -/
 example :
